@@ -5,7 +5,7 @@ IS_TRACE = True
 RUN = "monitor"
 TAGS = {8, 1}
 RULE = ("link MTU drawn from 1200..9000 and changed at a random instant, initial/min MTU and discovery upper bound "
-        "combinations, GSO batch 1..10, loss, datagram workloads; every transmit's segments are compared with the MTU "
+        "combinations, GSO batch 1..10, loss, datagram workloads, client address changes with datagrams queued (path-validation datagrams padded to 1200); every transmit's segments are compared with the MTU "
         "estimate probed just before the call; non-trivial = at least one MTU probe was sent or one GSO batch of >= 2 datagrams")
 
 
@@ -36,6 +36,18 @@ def gen(rng, n):
             d["ACK_FREQ"] = 2
         if rng.chance(1, 4):
             d["RETRY"] = 1
+        if rng.chance(1, 4):
+            # path validation (client address change) while datagrams / stream data are queued: the
+            # PATH_CHALLENGE / PATH_RESPONSE datagrams may share a GSO batch with others
+            d["MIGRATE_AT"] = rng.choice([40000, 60000, 100000, 150000])
+            d["MIGRATE_KIND"] = rng.below(2)
+            d["GSO"] = rng.choice([2, 3, 5, 10])
+            d["NDGRAM"] = rng.range(5, 40)
+            d["DGRAM_SIZE"] = rng.choice([900, 1000, 1100, 1150])
+            d["DGRAM_INTERVAL"] = rng.choice([0, 2000, 5000])
+            d["DGRAM_START"] = rng.choice([0, d["MIGRATE_AT"] - 5000, d["MIGRATE_AT"]])
+            d["ECHO_BYTES"] = rng.choice([0, 20000])
+            d["LINK_MTU"] = max(d["LINK_MTU"], 1452)
         d["MAX_TIME"] = 20_000_000
         cases.append(S.case_of(d))
     return cases
